@@ -583,7 +583,7 @@ def _mutates_param(repo: Repo, fn: FuncInfo, pname: str, depth: int = 0):
     # private object from there on: changes made through it further down do not reach the caller (textual order; a VIOLATION
     # needs a change that certainly is one)
     rebound: dict[str, int] = {}
-    for n in nodes:
+    for n in getattr(fn.node, "body", []):  # only statements that every path through the function executes
         tgt = None
         if isinstance(n, ast.Assign) and len(n.targets) == 1 and isinstance(n.targets[0], ast.Name) and not is_alias(n.value):
             tgt = n.targets[0].id
